@@ -139,6 +139,12 @@ Legal(a, r) ==
                          /\ a.ph \in {"I", "Bm", "Bp"}
                          /\ (a.ph # "I" => r.dir \in {a.ref, Neg(a.ref)})      \* never tangent
     [] r.e = "Safety" -> a.ph = "I"
+    [] r.e = "SafetyMax" -> a.ph = "I" /\ r.m > 0              \* find_safety(radius)
+    \* a second track initialised from this one (DetailedInitializer) with a new direction; a copy
+    \* taken on a boundary keeps the direction (the boundary state is copied verbatim)
+    [] r.e = "Copy" -> /\ r.dir \in Dirs
+                       /\ a.ph \in {"I", "Bm", "Bp"}
+                       /\ (a.ph # "I" => r.dir = a.dir)
     [] r.e = "MoveTo" -> /\ a.ph = "I" /\ a.ls >= 0 /\ AllOdd(r.p) /\ r.p # a.pos
                          /\ D2(r.p, a.pos) <= a.ls
     [] OTHER -> FALSE
@@ -153,6 +159,9 @@ Step(a, r) ==
                                   !.ref = a.dir]
     [] r.e = "SetDir" -> [NoNext(a) EXCEPT !.dir = r.dir]
     [] r.e = "Safety" -> [a EXCEPT !.ls = r.s2f]
+    [] r.e = "SafetyMax" -> a
+    \* the copy is in the state of the original, with the new direction and no cached step
+    [] r.e = "Copy" -> [NoNext(a) EXCEPT !.dir = r.dir]
     [] r.e = "MoveTo" -> [NoNext(a) EXCEPT !.pos = r.p, !.ls = -1]
 
 \* what every call must leave observable (b = state after the call, r = what was logged)
@@ -182,7 +191,9 @@ CallClauses(a, r) ==
          ELSE IF nx.d > r.m THEN (IF r.d = r.m /\ ~r.b THEN {} ELSE {"C03.Truncation"})
          ELSE IF r.d # r.m THEN {"C03.Truncation"}
          ELSE IF r.b THEN {} ELSE {"C03.LimitInclusive"}
-    [] r.e = "Safety" ->
+    \* the radius-limited search may stop looking beyond its radius, but what it reports is still a
+    \* safety distance: a lower bound of the true distance to the nearest boundary at any level
+    [] r.e \in {"Safety", "SafetyMax"} ->
          (IF r.sneg THEN {"C11.SafetyNonNegative"} ELSE {})
          \cup (IF r.s2c > TrueSafety2(a.pos) THEN {"C11.SafetyConservative"} ELSE {})
     [] r.e = "Cross" -> IF r.failed THEN {"C03.CrossFailed"} ELSE {}
